@@ -39,6 +39,8 @@ def shapes():
 
 def jobs(tier, seed):
     out = [{'name': 'table-lemmas', 'kind': 'lemmas', 'cost': 5}]
+    for lo in range(-3, 41, 4):
+        out.append({'name': f'concrete-adversarial-patterns:{lo}..{lo + 3}', 'kind': 'patterns', 'lo': lo, 'cost': 30 + 4 * max(lo, 0)})
     big = {(10, 'M'), (14, 'Q'), (21, 'M'), (27, 'H'), (32, 'H'), (40, 'H')}
     for v, lv in shapes():
         if tier == 'quick' and not (v <= 7 or (v, lv) in big):
@@ -90,6 +92,10 @@ def obligations(matrix, v, lv, bits):
         pass
     for b, (d, e) in enumerate(zip(data, ec)):
         ne = len(e)
+        if all(isc(c) for c in d + e):
+            for j, sv in enumerate(gf256.syndromes_int(d + e, ne)):
+                yield ('syndrome', f'block {b} S_{j}', sv, 0)
+            continue
         for j, s in enumerate(gf256.syndromes_bits(d + e, ne)):
             for i, bit in enumerate(s):
                 yield ('syndrome', f'block {b} S_{j} bit {i}', bit, 0)
@@ -105,6 +111,8 @@ def run_job(spec):
     enc, consts = L.encoder, L.consts
     if spec['kind'] == 'lemmas':
         return lemmas(res, enc, consts)
+    if spec['kind'] == 'patterns':
+        return patterns(res, enc, consts, spec['lo'])
     v, lv = spec['v'], spec['level']
     cap = T.data_bits(v, lv)
     bits = [z3.BitVec(f'd{k}', 1) for k in range(cap)]
@@ -137,6 +145,57 @@ def run_job(spec):
             pb.eq_bit(kind, label, g, 1)
             if not pb.run(to_input):
                 res.inconclusive.append('vacuity probe: flipped expectation was not refuted')
+    return res.as_dict()
+
+
+def pattern_data(v, lv):
+    """concrete data streams that stress mechanisms a symbolic run cannot represent (caches keyed by data values, early
+    exits on special bytes): pad-codeword patterns in and out of order, equal leading codewords in different blocks"""
+    import random
+    cap = T.data_bits(v, lv)
+    nbytes = (cap + 7) // 8
+    blocks = T.blocks(v, lv)
+    pads = [0xEC, 0x11]
+    out = {'zeros': [0] * nbytes, 'ones': [255] * nbytes, 'pad-sequence': [pads[i % 2] for i in range(nbytes)], 'all-EC': [0xEC] * nbytes, 'all-11': [0x11] * nbytes}
+    mixed = []
+    for b, (tot, nd) in enumerate(blocks):
+        blk = [0xEC] + [pads[(i * (b + 2) // (b + 1)) % 2] for i in range(nd - 1)]
+        if b % 2:
+            blk = [0xEC] + list(reversed(blk[1:]))
+        mixed += blk
+    out['same-lead-different-pad-mix'] = (mixed + [0xEC] * nbytes)[:nbytes]
+    rnd = random.Random(v * 10 + T.LEVEL_ORDER.get(lv, 0))
+    out['random'] = [rnd.randrange(256) for _ in range(nbytes)]
+    out['pad-then-random-per-block'] = []
+    for b, (tot, nd) in enumerate(blocks):
+        out['pad-then-random-per-block'] += ([pads[i % 2] for i in range(nd)] if b % 2 == 0 else [0xEC] + [rnd.choice(pads) for _ in range(nd - 1)])
+    out['pad-then-random-per-block'] = (out['pad-then-random-per-block'] + [0] * nbytes)[:nbytes]
+    res = {}
+    for k, bs in out.items():
+        bits = []
+        for x in bs:
+            bits += [(x >> (7 - i)) & 1 for i in range(8)]
+        res[k] = bits[:cap]
+    return res
+
+
+def patterns(res, enc, consts, lo):
+    """decided by evaluation (no solver): the same obligations on concrete adversarial data for all 168 shapes, on the
+    unmodified library (plain import) - data-keyed caches and the like behave there exactly as for a user"""
+    import segno.encoder as enc
+    from segno import consts
+    for v, lv in shapes():
+        if not lo <= v <= lo + 3:
+            continue
+        for name, bits in pattern_data(v, lv).items():
+            try:
+                m = run_pipeline(enc, consts, v, lv, list(bits))
+                bad = [(k, l) for k, l, g, w in obligations(m, v, lv, bits) if g != w]
+            except Exception as e:
+                bad = [('exception', repr(e))]
+            res.concrete('concrete-adversarial-data: blocks valid, data in order', not bad,
+                         lambda v=v, lv=lv, name=name, bits=bits: res.violation('pattern', f'{T.version_name(v)}-{lv} data pattern {name}', {'v': v, 'level': lv, 'bits': list(bits)}))
+    res.sample({'case': 'concrete adversarial patterns', 'patterns': list(pattern_data(1, 'L'))})
     return res.as_dict()
 
 
